@@ -14,7 +14,7 @@ MCInit == P \in {PropInit(t) : t \in Types} /\ last = Call("init", 0, "", 0)
 
 (* of the compound values: the base value, the variants differing in the first / in the last field, coinciding values *)
 MCVals(n) == CASE n = "t" -> {0, 1, 2, 3, 11, 15, 19, 21} [] n = "f" -> {0, 1, 2, 3, 4, 6, 7, 8, 11, 12, 14, 16}
-               [] n = "c" -> {0, 1, 2, 3, 5} [] n = "ao" -> {0, 1, 3, 4} [] n = "dof" -> {0, 1, 3, 4} [] OTHER -> 0..5
+               [] n = "c" -> {0, 1, 2, 3, 5, 7, 8, 9, 15} [] n = "ao" -> {0, 1, 3, 4} [] n = "dof" -> {0, 1, 3, 4} [] OTHER -> 0..5
 MCCalls == {c \in PropCalls(P) : c.op = "set" => c.v \in MCVals(c.j)}
 
 MCNext == \E c \in MCCalls : P' \in PropStep(P, c) /\ last' = c
